@@ -526,3 +526,4 @@ macro_rules! for_cast_types {
         }
     };
 }
+pub mod fmt_table;
